@@ -907,7 +907,9 @@ class Interp:
     def store(self, unit, lhs, v, env, this):
         if self.cfg.lvalues:
             loc_ = self.lv(unit, lhs, env, this)
-            if loc_ is not None and loc_[0] != "@var":
+            l0 = T.unwrap(unit, lhs)
+            plain = l0 is not None and l0.get("k") == "ref" and not (isinstance(env.get(l0.get("id")), tuple) and (env.get(l0.get("id")) or ("",))[0] == "@ref")
+            if loc_ is not None and not plain:
                 self.store_loc(loc_, v)
                 return
         l = T.unwrap(unit, lhs)
